@@ -538,6 +538,8 @@ def construct(I, tok, args, kwargs):
     if tok.name == 'str':
         return b_str(I, *args)
     if tok.name == 'list':
+        if len(args) == 1 and isinstance(args[0], Obj) and args[0].cls == 'list':
+            return args[0]          # list(L) of an opaque list: same elements (lists are values in the model)
         return b_list(I, *args)
     if tok.name == 'dict':
         return dict(*args, **kwargs)
